@@ -1131,3 +1131,6 @@ N('C18', 'bind tests freshness through the list of free variables', VM,
   "            if lhs.occurs_var(rv):\n                raise VeriTException(\"bind\", \"bound variable of rhs occurs free in lhs\")\n", "            if rv in lhs.get_vars():\n                raise VeriTException(\"bind\", \"bound variable of rhs occurs free in lhs\")\n")
 B('C19', 'sum under a power without parentheses', 'integral/rules.py',
   "                return normal(rec(x) / (Const(1) + (x ^ Const(2))))", "                return normal(rec(x) / (Const(1) + x ^ Const(2)))", 'C19.E10', 'deriv')
+B('C01', 'checked_get_type accepts a negative de Bruijn index', TERM,
+  "                bodyT = rec(t.body, [t.var_T] + bd_vars)\n                return TFun(t.var_T, bodyT)\n            elif t.is_bound():\n                # A negative number is not a de Bruijn index (and would\n                # count the binders from the outside).\n                if t.n < 0 or t.n >= len(bd_vars):",
+  "                bodyT = rec(t.body, [t.var_T] + bd_vars)\n                return TFun(t.var_T, bodyT)\n            elif t.is_bound():\n                if t.n >= len(bd_vars):", 'C01.K18', 'checked_get_type')
